@@ -605,6 +605,9 @@ func (st *State) encodePtr(p PtrV) Term {
 	if p.Kind == "obj" && refEmbedded[p.Root+"."+p.Path] {
 		return p.Base // identity embedding (offset 0): see DESIGN, heap model
 	}
+	if p.Kind == "obj" && p.Path == "" {
+		return p.Base
+	}
 	fail("cannot encode interior pointer %s", fmtVal(p))
 	return Term{}
 }
